@@ -92,7 +92,7 @@ package linking
 //   the block returned is memory made for this call (a node built over it is not rewritten by a later load)
 //   (assumed: a zero-value bytes.Buffer keeps its bytes in memory allocated after the Buffer itself)
 //@   after Bytes assume root(result0) > root(&buf)
-//@   ensures[C06,C11] err == nil ==> fresh(r)
+//@   ensures[C05,C06,C11] err == nil ==> fresh(r)
 
 // ---- Store == ComputeLink; the link is a function of prototype, value and configuration ----
 
